@@ -3196,3 +3196,5 @@ def check(run, prog):
     rule_read_answered(run, prog)            # R-5.15
     from .snippet_rules import rule_declarator_zoo
     rule_declarator_zoo(run, prog)           # R-5.16
+    from .c05_truncation import rule_truncated_inputs
+    rule_truncated_inputs(run, prog)         # R-5.17
